@@ -340,6 +340,14 @@ def env_traces(ck, name, profile, files, runs, ops, hook=True, timeout=600):
                     consts={"MaxPrice": MAXPRICE, "UseHook": hook}, view="View", timeout=timeout)
 
 
+def sim_traces(ck, name, files, runs, steps, profile=None, timeout=900):
+    """Complete simulations recorded from inside the real runners (recording agent set), validated by TLC against SimTrace.tla:
+    loop structure, every step (MarketOps), every submission (C10), every member's instructions against the agent relations with
+    the observation derived by TLC from the specification state."""
+    ck.traces_stage(name, "record_sim", profile or {}, files=files, runs=runs, ops=steps, trace_spec="SimTrace",
+                    consts={"MaxPrice": MAXPRICE, "UseHook": True}, spec="TSpecSim", report="SReport", timeout=timeout)
+
+
 ENV_RULE = ("paths: every sequence of submissions / steps / toggles of the bounded generator configs; for each path TLC emits the "
             "complete set of (schedule, outcome) pairs the specification allows and the real environment is run on it under several "
             "seeds (outcome must be a member; must equal the outcome of the schedule reported by the hook); non-trivial = ")
@@ -366,6 +374,8 @@ def c08(tier, seed):
             need=("schedule_matters", "has_trade", "trading_toggled"), timeout=400 if q else 1800)
     # long random runs, batches up to 25 instructions (step sizes from 1 to 1000): schedule from the hook, linear validation
     env_traces(ck, "rand_env_hook", {"max_batch": 25, "p_step": 0.06}, files=6 if q else 48, runs=3 if q else 6, ops=250, hook=True)
+    # agent-generated load: complete simulations through the real runners (batches of tens of instructions)
+    sim_traces(ck, "sim_steps", files=4 if q else 32, runs=3 if q else 6, steps=30 if q else 100)
     # hook-free: TLC infers a processing order that explains each step (batches up to 8)
     env_traces(ck, "rand_env_inferred", {"max_batch": 8, "p_step": 0.15}, files=6 if q else 48, runs=3 if q else 6, ops=160, hook=False)
     return ck.finish("model_checking", LEVEL_TEXT, ENV_RULE + "paths whose outcome depends on the schedule + recorded steps with batches of 4 or more",
@@ -502,6 +512,9 @@ def c09(tier, seed):
         ck.features["output_lines_compared"] = nlines if isinstance(nlines, int) else 0
     ck.traces += 5 * len(configs)
     ck.features["configurations"] = len(configs)
+    # the runs are behaviours of the specification at all: complete simulations recorded from inside sim_runner /
+    # market_sim_runner (both progress-bar branches) validated event by event against SimTrace.tla
+    sim_traces(ck, "sim_traces", files=6 if q else 48, runs=4 if q else 8, steps=40 if q else 120)
     ck.samples.append({"stage": "runs", "kind": "one configuration (run as 5 separate OS processes)", "case": configs[0]})
     ck.stages.append({"stage": "runs", "kind": "5 OS processes x %d configurations through sim_runner / market_sim_runner with derive-macro agent sets; TLC compares outputs line by line" % len(configs),
                       "configurations": len(configs), "wall_s": round(time.time() - t0, 1)})
@@ -645,9 +658,13 @@ def c16(tier, seed):
     # the heavy-tailed price distribution of the project's documentation (sigma = 10) on every tick size
     ck.traces_stage("agents_sigma10", "record_agents", dict(base, kinds=["noise", "momentum"], sigmas=[10.0]), files=8 if q else 32,
                     runs=100 if q else 200, ops=0, trace_spec="AgentTrace", consts={})
+    # the same relations inside complete simulations (mixed agent sets on one environment, through the real runners); here TLC
+    # derives what the agent could observe from its own specification state instead of taking it from the recorder
+    sim_traces(ck, "agents_in_simulations", files=6 if q else 48, runs=4 if q else 8, steps=30 if q else 100)
     return ck.finish("model_checking", LEVEL_TEXT, AGENT_RULE + "update calls that queued at least one instruction",
                      ("agents_random.updates_with_instructions", "agents_noise.updates_with_instructions",
-                      "agents_momentum.updates_with_instructions", "agents_sigma10.updates_with_instructions"))
+                      "agents_momentum.updates_with_instructions", "agents_sigma10.updates_with_instructions",
+                      "agents_in_simulations.updates_with_instructions"))
 
 
 def c17(tier, seed):
